@@ -599,6 +599,12 @@ func classifyCrash(cfg *propCfg, so shardOut) (violation, bool) {
 			return violation{}, false // harness-only race: infrastructure
 		}
 		return violation{Kind: "data-race", Site: site, Detail: tail(rep, 6000)}, true
+	case so.exit == 67 || strings.Contains(so.stderr, "VERIF-HANG"):
+		site := "unknown"
+		if i := strings.Index(so.stderr, "VERIF-HANG site="); i >= 0 {
+			site = strings.TrimSpace(strings.SplitN(so.stderr[i+len("VERIF-HANG site="):], "\n", 2)[0])
+		}
+		return violation{Kind: "hang", Site: site, Detail: "the call did not return within the watchdog limit (a case normally takes milliseconds); confirmed by replaying the case alone"}, true
 	case so.exit == -2:
 		return violation{Kind: "hang", Site: "watchdog", Detail: "the simulated run never reached quiescence (a goroutine spins or is blocked outside the simulator's seams); last case: " + so.status + "\n" + so.stderr}, false
 	case strings.Contains(so.stderr, "panic:") || strings.Contains(so.stderr, "fatal error:"):
